@@ -38,3 +38,39 @@ Theorem C18_finished_refuses : forall now c t,
   r_out r = c_injections c /\ r_err r = 1 /\ c' = c <| c_injections := [] |>.
 Proof. exact send_finished_refuses. Qed.
 Print Assumptions C18_finished_refuses.
+
+(* ---- the whole lifecycle, for every call and every history ----
+   [track b evs] replays the security events on the encrypted status: GoneSecure is legal only from not-encrypted and
+   leads to encrypted, StillSecure only while encrypted, GoneInsecure only from encrypted and leads to not-encrypted;
+   no other event moves the status; an event out of place gives None. *)
+From OTR Require Import Proto.Lifecycle.
+
+(* one call, any state, any input: the events it reports are exactly a legal track from the status before to the
+   status after - so the status changes only with the matching event and every such event is a real transition *)
+Theorem C18_call_events_track_status : forall now c op, let '(c', r) := step now c op in
+  track (encb (c_msgState c)) (r_events r) = Some (encb (c_msgState c')).
+Proof. exact step_tracks. Qed.
+Print Assumptions C18_call_events_track_status.
+
+(* every history of calls (any inputs, any clock values) on a new conversation: it is encrypted exactly when the
+   security events raised so far say so *)
+Theorem C18_encrypted_exactly_between_events : forall who pol key h,
+  let '(c', evs) := run_calls (conv_init who pol key) h in
+  track false evs = Some (c_msgState c' =? c_encrypted).
+Proof. exact encrypted_iff_events. Qed.
+Print Assumptions C18_encrypted_exactly_between_events.
+
+(* Send, SMP calls, extra-key requests and TLV sends never change the message state nor raise a security event:
+   only Receive (completed exchange, peer's disconnect) and End do *)
+Theorem C18_only_receive_and_end_change_state : forall now c op,
+  (match op with CReceive _ _ _ | CEnd => False | _ => True end) ->
+  let '(c', r) := step now c op in c_msgState c' = c_msgState c /\ nosec (r_events r).
+Proof. exact step_user_calls_frame. Qed.
+Print Assumptions C18_only_receive_and_end_change_state.
+
+(* the tracking function has teeth *)
+Example C18_track_accepts : track false [evSec c_GoneSecure; c_MessageEventLogHeartbeatSent; evSec c_StillSecure; evSec c_GoneInsecure] = Some false.
+Proof. reflexivity. Qed.
+Example C18_track_refuses : track false [evSec c_GoneInsecure] = None /\ track true [evSec c_GoneSecure] = None /\
+  track false [evSec c_StillSecure] = None.
+Proof. vm_compute; auto. Qed.
